@@ -1,12 +1,11 @@
 (* Layer I: src/seek.rs and src/seek/estimate.rs *)
 From Coq Require Import List NArith Bool Arith.
 From Coq Require Import Strings.Byte.
-Require Import BS.Bytes BS.Common BS.FS BS.Meta BS.Header BS.Reader BS.Index BS.Data.
+Require Import BS.Bytes BS.Common BS.Api BS.FS BS.Meta BS.Header BS.Reader BS.Index BS.Data.
 Require BSgen.Consts.
 Import ListNotations.
 Close Scope N_scope. Open Scope nat_scope.
 
-Inductive bound := Incl (t:N) | Excl (t:N) | Unb.
 
 Record rough := {
   start_ts : N; start_area_ : start_area; start_full : N;
